@@ -350,11 +350,12 @@ func (ctx *Context) makeDetailStr(details []BufferSpan) string {
 		detailResult = buf.Bytes()
 	}
 
-	detailStr := string(detailResult)
-	if detailStr == ctx.Ret.ToString() {
+	// 先去除首尾空白再比较，否则被解析消耗掉的尾部空白会让 "3 " != "3"，计算过程将取决于输入末尾的空白
+	detailStr := strings.TrimSpace(string(detailResult))
+	if detailStr == strings.TrimSpace(ctx.Ret.ToString()) {
 		detailStr = "" // 如果detail和结果值完全一致，那么将其置空
 	}
-	return strings.TrimSpace(detailStr)
+	return detailStr
 }
 
 func (ctx *Context) evaluate() {
